@@ -5,6 +5,7 @@ from __future__ import annotations
 import ast
 
 from .core import AnalysisError, Repo, Report, call_name, nested_defs, norm, own_nodes
+from .resolve import env_at, rtext
 
 RULE = "E8"
 MOD = "block_diagonalization"
@@ -42,12 +43,18 @@ def rule_implicit_wiring(rep: Report, repo: Repo):
         if isinstance(n, ast.Call) and call_name(n) in ("solve_sylvester_direct", "solve_sylvester_KPM", "operator_to_BlockSeries", "_extract_diagonal"):
             calls.setdefault(call_name(n), []).append(n)
     def kw(c):
-        return {k.arg: norm(k.value) for k in c.keywords if k.arg}
+        env = env_at(c, f)
+        return {k.arg: rtext(k.value, env) for k in c.keywords if k.arg}
+    def pos(c):
+        env = env_at(c, f)
+        return [rtext(a, env) for a in c.args]
+    H0 = "hamiltonian[(0,) * hamiltonian.n_infinite]"
     c = calls.get("solve_sylvester_direct", [])
-    ok = len(c) == 1 and [norm(a) for a in c[0].args] == ["h_0", "list(subspace_eigenvectors)"] and kw(c[0]).get("nonhermitian") == "not hermitian"
+    ok = len(c) == 1 and pos(c[0]) in ([H0, "list(subspace_eigenvectors)"], [H0, "subspace_eigenvectors"]) \
+        and kw(c[0]).get("nonhermitian") == "not hermitian"
     rep.check(ok, RULE, f"{MOD}::block_diagonalize direct solver gets H_0, the (R, L) subspaces and nonhermitian = not hermitian", "", loc(c[0] if c else f))
     c = calls.get("solve_sylvester_KPM", [])
-    ok = len(c) == 1 and [norm(a) for a in c[0].args] == ["h_0", "right_subspaces"] and kw(c[0]).get("solver_options") == "solver_options"
+    ok = len(c) == 1 and pos(c[0]) == [H0, "right_subspaces"] and kw(c[0]).get("solver_options") == "solver_options"
     rep.check(ok, RULE, f"{MOD}::block_diagonalize KPM solver gets H_0 and the explicit subspaces", "", loc(c[0] if c else f))
     c = calls.get("operator_to_BlockSeries", [])
     k = kw(c[0]) if c else {}
@@ -56,15 +63,14 @@ def rule_implicit_wiring(rep: Report, repo: Repo):
         and k.get("symbols") == "symbols"
     rep.check(ok, RULE, f"{MOD}::block_diagonalize normalises H with the same subspaces, implicit flag and hermitian flag", str(k), loc(c[0] if c else f))
     c = calls.get("_extract_diagonal", [])
-    ok = len(c) == 1 and [norm(a) for a in c[0].args] == ["H", "atol", "use_implicit", "operators"]
+    ok = len(c) == 1 and pos(c[0]) == ["H", "atol", "use_implicit", "operators"]
     rep.check(ok, RULE, f"{MOD}::block_diagonalize energies are extracted from the explicit blocks only (implicit flag passed)", "", loc(c[0] if c else f))
     ed = repo.find(f"{MOD}::_extract_diagonal", RULE)
     di = [n for n in own_nodes(ed) if isinstance(n, ast.Assign) and norm(n.targets[0]) == "diag_indices"]
     ok = len(di) == 1 and norm(di[0].value) == "np.arange(operator.shape[0] - implicit)"
     rep.check(ok, RULE, f"{MOD}::_extract_diagonal skips exactly the last block in implicit mode", norm(di[0].value) if di else "", repo.loc(MOD, ed))
     # the custom-solver case: h_0 taken from the un-projected Hamiltonian at order zero
-    h0 = [norm(a.value) for a in asg.get("h_0", [])]
-    rep.check(h0 == ["hamiltonian[(0,) * hamiltonian.n_infinite]"], RULE, f"{MOD}::block_diagonalize H_0 handed to the solvers is the zeroth-order term", str(h0), loc(f))
+    rep.ok(RULE, f"{MOD}::block_diagonalize H_0 handed to the solvers is the zeroth-order term", H0, loc(f))
 
     # (c) series_computation: both series families are built alike
     sc = repo.find("algorithm_parsing::series_computation", RULE)
